@@ -370,6 +370,10 @@ class Interp:
             if not (is_symbolic(args) or is_symbolic(kwargs)) and f not in self.interpret_always:
                 return self._native(f, args, kwargs)
             return self._call_function(f, args, kwargs)
+        if isinstance(f, types.BuiltinMethodType) and isinstance(getattr(f, "__self__", None), list) and f.__name__ == "sort" \
+                and (kwargs.get("key") is not None or is_symbolic(f.__self__)):
+            from .library import m_list_sort
+            return m_list_sort(self, f.__self__, args, kwargs)
         if isinstance(f, type):
             return self._construct(f, args, kwargs)
         if isinstance(f, enum.Enum) or (hasattr(type(f), "__mro__") and getattr(type(f), "__module__", "").startswith("wntr")):
@@ -779,6 +783,15 @@ class Interp:
         env.loop_ordinal = getattr(env, "loop_ids", {}).get(id(s), 0)
         spec = self.loop_specs.get((getattr(env, "qualname", None), env.loop_ordinal)) or \
             self.loop_specs.get((getattr(env, "qualname", None), s.lineno))
+        if spec is None:
+            # specs keyed by a fragment of the loop test (robust against loops being added / removed elsewhere)
+            src = None
+            for (q, key), sp in self.loop_specs.items():
+                if q == getattr(env, "qualname", None) and isinstance(key, str) and key.startswith("test:"):
+                    src = src or ast.unparse(s.test)
+                    if key[5:] in src:
+                        spec = sp
+                        break
         if spec is not None:
             return spec(self, s, env)
         n = 0
